@@ -226,27 +226,39 @@ def run_layout(ctx, rng, MetricFrame, n, ns, nc, scols, snames, skind, spayload,
              sample={"n": n, "sensitive": {snames[i]: scols[i] for i in range(ns)}, "control": {cnames[i]: ccols[i] for i in range(nc)},
                      "sensitive_container": skind, "control_container": ckind, "metric_form": form,
                      "cell_sizes": sizes, "empty_cells": n_empty})
-    mf = MetricFrame(metrics=metrics, y_true=wrap_vec(rng, y_true), y_pred=wrap_vec(rng, y_pred), sensitive_features=spayload,
-                     control_features=cpayload, sample_params=sp)
+    yt_w, yp_w = wrap_vec(rng, y_true), wrap_vec(rng, y_pred)
     wit = {"n": n, "sensitive": scols, "control": ccols, "containers": [skind, ckind], "form": form}
     nlev = ns + nc
+    # the same argument OBJECTS are used for a second frame (model comparison workflows reuse y_true / features / sample_params):
+    # the second frame is held to the same standard against the parameters the caller built
+    reuse = rng.random() < 0.5
+    for sfx in (["", ":second_frame_from_the_same_argument_objects"] if reuse else [""]):
+        mf = MetricFrame(metrics=metrics, y_true=yt_w, y_pred=yp_w, sensitive_features=spayload, control_features=cpayload, sample_params=sp)
+        if sfx:
+            ctx.ev("second_frames_checked")
+        _verify_layout(ctx, mf, sfx, wit, nlev, ns, nc, snames, cnames, specs, form, base, n, part, cpart, exp_idx)
+
+
+def _verify_layout(ctx, mf, sfx, wit, nlev, ns, nc, snames, cnames, specs, form, base, n, part, cpart, exp_idx):
     bg = mf.by_group
     # names
     ctx.ev("names_checked")
-    ctx.check(list(mf.sensitive_levels) == snames, "sensitive_levels_names", got=mf.sensitive_levels, expected=snames, wit=wit)
-    ctx.check((mf.control_levels or []) == cnames, "control_levels_names", got=mf.control_levels, expected=cnames, wit=wit)
-    ctx.check(list(bg.index.names) == cnames + snames, "by_group_index_level_order", got=list(bg.index.names), expected=cnames + snames, wit=wit)
+    ctx.check(list(mf.sensitive_levels) == snames, "sensitive_levels_names" + sfx, got=mf.sensitive_levels, expected=snames, wit=wit)
+    ctx.check((mf.control_levels or []) == cnames, "control_levels_names" + sfx, got=mf.control_levels, expected=cnames, wit=wit)
+    # container by form: by_group carries an index (one entry per group) even when a single group is observed
+    if form.startswith("bare"):
+        ok_type = ctx.check(isinstance(bg, pd.Series), "by_group_type_for_callable" + sfx, got=type(bg).__name__, wit=wit)
+    else:
+        ok_type = ctx.check(isinstance(bg, pd.DataFrame) and list(bg.columns) == [s[0] for s in specs], "by_group_columns_for_dict" + sfx,
+                            got=type(bg).__name__, wit=wit)
+    if not ok_type:
+        return
+    ctx.check(list(bg.index.names) == cnames + snames, "by_group_index_level_order" + sfx, got=list(bg.index.names), expected=cnames + snames, wit=wit)
     # index set
     got_keys = [norm_key(k, nlev) for k in bg.index]
     ctx.ev("index_sets_compared")
-    ctx.check(same_keyset(got_keys, exp_idx) and len(set(map(repr, got_keys))) == len(got_keys), "by_group_index_set_mismatch",
+    ctx.check(same_keyset(got_keys, exp_idx) and len(set(map(repr, got_keys))) == len(got_keys), "by_group_index_set_mismatch" + sfx,
               got=[list(k) for k in got_keys], expected=[list(k) for k in exp_idx], wit=wit)
-    # shape by form
-    if form.startswith("bare"):
-        ctx.check(isinstance(bg, pd.Series), "by_group_type_for_callable", got=type(bg).__name__)
-    else:
-        ctx.check(isinstance(bg, pd.DataFrame) and list(bg.columns) == [s[0] for s in specs], "by_group_columns_for_dict",
-                  got=type(bg).__name__)
     for name, m, params in specs:
         def exp_rows(rows):
             return sorted([tuple([i + base, i + base + 10 ** 6] + [params[p][i] for p in m.param_names]) for i in rows], key=repr)
@@ -256,13 +268,13 @@ def run_layout(ctx, rng, MetricFrame, n, ns, nc, scols, snames, skind, spayload,
             rows = _lookup(part, k)
             if rows is None:
                 ctx.ev("empty_cells_checked")
-                ctx.check(isnan(v), "empty_combination_not_nan", cell=list(k), value=repr(v), metric=name, wit=wit)
+                ctx.check(isnan(v), "empty_combination_not_nan" + sfx, cell=list(k), value=repr(v), metric=name, wit=wit)
                 continue
             rec = m.invocation(v)
             ctx.ev("cells_matched_to_invocations")
-            if not ctx.check(rec is not None, "cell_value_not_from_metric_invocation", cell=list(k), value=repr(v), metric=name, wit=wit):
+            if not ctx.check(rec is not None, "cell_value_not_from_metric_invocation" + sfx, cell=list(k), value=repr(v), metric=name, wit=wit):
                 continue
-            ctx.check(m.rows_of(rec) == exp_rows(rows), "cell_computed_on_wrong_rows_or_param_slices", cell=list(k), metric=name,
+            ctx.check(m.rows_of(rec) == exp_rows(rows), "cell_computed_on_wrong_rows_or_param_slices" + sfx, cell=list(k), metric=name,
                       saw=m.rows_of(rec)[:12], expected=exp_rows(rows)[:12], wit=wit)
             ctx.check(set(rec["params"]) == set(m.param_names), "metric_received_wrong_parameter_names", metric=name,
                       got=sorted(rec["params"]), expected=list(m.param_names))
@@ -272,25 +284,28 @@ def run_layout(ctx, rng, MetricFrame, n, ns, nc, scols, snames, skind, spayload,
             v = ov if form.startswith("bare") else ov[name]
             rec = m.invocation(v)
             ctx.ev("overall_matched_to_invocations")
-            if ctx.check(rec is not None, "overall_value_not_from_metric_invocation", value=repr(v), metric=name, wit=wit):
-                ctx.check(m.rows_of(rec) == exp_rows(range(n)), "overall_not_computed_on_all_rows", metric=name,
+            if ctx.check(rec is not None, "overall_value_not_from_metric_invocation" + sfx, value=repr(v), metric=name, wit=wit):
+                ctx.check(m.rows_of(rec) == exp_rows(range(n)), "overall_not_computed_on_all_rows" + sfx, metric=name,
                           saw=m.rows_of(rec)[:12], wit=wit)
         else:
+            if not ctx.check(isinstance(ov, pd.Series if form.startswith("bare") else pd.DataFrame), "overall_with_control_features_has_no_entry_per_control_combination" + sfx,
+                             got=type(ov).__name__, wit=wit):
+                continue
             colo = ov if isinstance(ov, pd.Series) else ov[name]
             seen = []
             for k_raw, v in colo.items():
                 k = norm_key(k_raw, nc)
                 rows = _lookup(cpart, k)
                 if rows is None:
-                    ctx.check(isnan(v), "empty_control_combination_not_nan_in_overall", cell=list(k), value=repr(v), wit=wit)
+                    ctx.check(isnan(v), "empty_control_combination_not_nan_in_overall" + sfx, cell=list(k), value=repr(v), wit=wit)
                     continue
                 seen.append(k)
                 rec = m.invocation(v)
                 ctx.ev("overall_matched_to_invocations")
-                if ctx.check(rec is not None, "overall_value_not_from_metric_invocation", cell=list(k), value=repr(v), metric=name, wit=wit):
-                    ctx.check(m.rows_of(rec) == exp_rows(rows), "overall_not_computed_on_control_combination_rows", cell=list(k),
+                if ctx.check(rec is not None, "overall_value_not_from_metric_invocation" + sfx, cell=list(k), value=repr(v), metric=name, wit=wit):
+                    ctx.check(m.rows_of(rec) == exp_rows(rows), "overall_not_computed_on_control_combination_rows" + sfx, cell=list(k),
                               metric=name, saw=m.rows_of(rec)[:12], expected=exp_rows(rows)[:12], wit=wit)
-            ctx.check(same_keyset(seen, list(cpart.keys())), "overall_missing_control_combination", got=[list(s) for s in seen],
+            ctx.check(same_keyset(seen, list(cpart.keys())), "overall_missing_control_combination" + sfx, got=[list(s) for s in seen],
                       expected=[list(s) for s in cpart], wit=wit)
 
 
